@@ -84,6 +84,12 @@ CLAIMS = {
                      "exponential edges, least-k bin counts); every Make/Copy/Slice/==/as_static/as_fixed_width transition and every rule "
                      "instance is replayed against physt.binnings under 5-8 embeddings; numpy rule cross-checked with numpy.histogram_bin_edges",
                 technique="TLA+ spec PhystBinnings (exact rational rule definitions) + TLC; one implementation test per transition of the state graph"),
+    "C08": dict(spec="PhystIO", design="5/C08",
+                text="the document schema is modelled (Write emits exactly the writer's fields, Read consumes them); TLC checks RoundTrip and "
+                     "Idempotent; 17 subjects (all classes, binning types, dtypes, NaN/non-zero missed, keep off, metadata) are driven through "
+                     "to_json/parse_json, save/load via a file and a second serialisation; documents, bit patterns of all arrays, counters, "
+                     "flags and metadata compared; 18 declared versions against the version rule",
+                technique="TLA+ spec PhystIO (document schema) + TLC; replay of Pick/ToJson/Parse/ToJson2/SaveLoad/VersionCheck transitions"),
 }
 
 PENDING = {}
